@@ -414,16 +414,24 @@ class Registry:
                 elif fn == "lemma":
                     self.lemmas.append((node.value, path))
             elif isinstance(node, ast.FunctionDef):
-                self.spec_funcs[node.name] = node
+                self._add_spec(node, path)
             elif isinstance(node, ast.Assign) and len(node.targets) == 1 and isinstance(node.targets[0], ast.Name):
                 self.spec_consts[node.targets[0].id] = node.value
+
+    def _add_spec(self, node, path):
+        """spec functions of all sidecars share one namespace: a second definition of a name would silently change
+        the meaning of contracts written against the first (this happened once: step_keywords)"""
+        prev = self.spec_funcs.get(node.name)
+        if prev is not None and ast.dump(prev) != ast.dump(node) and not node.name.startswith("_"):
+            raise ValueError(f"spec function {node.name} defined twice (second definition in {path})")
+        self.spec_funcs[node.name] = node
 
     def _load_specs(self, path):
         with open(path, encoding="utf8") as f:
             tree = ast.parse(f.read(), filename=path)
         for node in tree.body:
             if isinstance(node, ast.FunctionDef):
-                self.spec_funcs[node.name] = node
+                self._add_spec(node, path)
             elif isinstance(node, ast.Assign) and len(node.targets) == 1 and isinstance(node.targets[0], ast.Name):
                 self.spec_consts[node.targets[0].id] = node.value
 
@@ -710,6 +718,20 @@ class Registry:
             return self._super_call(ex, st, e)
         if fname in ("old", "entry") and isinstance(ex, SpecExecutor):
             return ex.special_old(st, e, fname)
+        if fname == "same_ref" and isinstance(ex, SpecExecutor):
+            # same_ref(path): the path denotes the same heap object now as in the pre-state (object identity)
+            now = ex.one(st, e.args[0])
+            if st.pre_heap is None:
+                raise EngineUnsupported("same_ref() without pre-state")
+            s0 = st.clone()
+            s0.heap = dict(st.pre_heap)
+            pe = st.ghost.get("$params")
+            if pe:
+                s0.env = dict(st.env)
+                s0.env.update(pe)
+            before = ex.one(s0, e.args[0])
+            ok = isinstance(now, VRef) and isinstance(before, VRef) and now.loc == before.loc
+            return [(st, VBool(z3.BoolVal(ok)))]
         if fname in ("forall", "exists") and isinstance(ex, SpecExecutor):
             return ex.special_quant(st, e, fname)
         if fname in ("fold", "fold_prefix") and isinstance(ex, SpecExecutor):
